@@ -1,6 +1,6 @@
 (** Properties/C02.v — "The newest cross-reference entry for an object always wins".
     Only statements, each closed by [exact] of a lemma proved in XRef/. *)
-From PdfV Require Import Base.Prelude Gen.Generated XRef.Model XRef.Spec XRef.MergeProofs XRef.StreamProofs XRef.FrontProofs.
+From PdfV Require Import Base.Prelude Gen.Generated XRef.Model XRef.Spec XRef.MergeProofs XRef.StreamProofs XRef.FrontProofs XRef.TableProofs.
 Set Warnings "-notation-overridden".   (* also ends the import list for the dependency scanner of tools/vplib *)
 
 (** For every well-formed history, every subsection split of every update and every /Size (growing or not):
@@ -35,6 +35,25 @@ Theorem C02_walk_latest : forall xref_at file_len start (h : history) secss q0 s
             table_get t n = Ok (xent_opt (latest h n)).
 Proof. exact walk_latest. Qed.
 Print Assumptions C02_walk_latest.
+
+(** Classic tables (§7.5.4): reading at the `xref` keyword (read_xref_and_trailer_at, classic branch, up to and
+    including the `trailer` keyword) inverts the printer: every row is 20 bytes in any of the three 2-byte
+    end-of-line forms (chosen per row), any subsection split (including empty subsections and no subsection),
+    any non-empty ISO white-space after `xref`, between the two header numbers and after them, any white-space
+    before a header and before `trailer`.  [rest] is what follows the keyword (the trailer dictionary): its
+    first byte must not continue the keyword
+    (white-space or a delimiter such as `<`).  The lexer ends exactly behind the keyword. *)
+Theorem C02_table_roundtrip : forall (L : layout) (secs : list section) (rest : bytes) (p : N),
+  layout_ok L secs -> token_end rest ->
+  read_xref_table_at (mkLx p (print_table_spec L secs ++ rest))
+  = Ok (secs, mkLx (p + lenN (print_table_spec L secs)) rest).
+Proof. exact table_roundtrip. Qed.
+Print Assumptions C02_table_roundtrip.
+
+(** every printed row has exactly 20 bytes *)
+Theorem C02_table_row_20 : forall e el, row_fits e -> lenN (print_row e el) = 20.
+Proof. exact print_row_len. Qed.
+Print Assumptions C02_table_row_20.
 
 (** Cross-reference streams: the section reader inverts the §7.5.8 printer for every /W with fields of
     0..8 bytes (w0 = 0: default type 1), one subsection … *)
@@ -99,3 +118,31 @@ Example C02_stream_example :
   parse_xref_stream_sections [3; 2] [1; 2; 1] (print_stream 1 2 1 [{| first_id := 3; entries := [XRaw 300 0; XStream 9 4] |}]) false
   = Ok [{| first_id := 3; entries := [XRaw 300 0; XStream 9 4] |}].
 Proof. vm_compute. reflexivity. Qed.
+Definition ex_layout : layout :=
+  {| l_first := [13; 10];
+     l_subs := [ {| l_pre := []; l_mid := [32]; l_heol := [10]; l_eols := [SpLf; CrLf] |};
+                 {| l_pre := [32; 9]; l_mid := [32; 32]; l_heol := [13]; l_eols := [SpCr] |};
+                 {| l_pre := []; l_mid := [32]; l_heol := [13; 10]; l_eols := [] |} ];
+     l_end := [] |}.
+Definition ex_tab_secs : list section :=
+  [ {| first_id := 0; entries := [XFree 0 65535; XRaw 17 0] |};
+    {| first_id := 7; entries := [XRaw 9999999999 3] |};
+    {| first_id := 12; entries := [] |} ].
+Example C02_table_example :
+  read_xref_table_at (mkLx 100 (print_table_spec ex_layout ex_tab_secs ++ [10; 60; 60; 62; 62]))
+  = Ok (ex_tab_secs, mkLx (100 + lenN (print_table_spec ex_layout ex_tab_secs)) [10; 60; 60; 62; 62]) /\
+  lenN (print_table_spec ex_layout ex_tab_secs) = 90.
+Proof. split; vm_compute; reflexivity. Qed.
+Example C02_table_example_ok : layout_ok ex_layout ex_tab_secs.
+Proof.
+  unfold layout_ok, ex_layout, ex_tab_secs, sub_ok, gap, iso_white, row_fits. cbn [l_first l_end l_subs l_pre l_mid l_heol l_eols entries first_id].
+  repeat match goal with
+         | |- _ /\ _ => split
+         | |- Forall2 _ _ _ => constructor
+         | |- Forall _ _ => constructor
+         | |- _ <> _ => discriminate
+         | |- In _ _ => cbn [In]; tauto
+         | |- _ < _ => reflexivity
+         | |- _ = _ => reflexivity
+         end.
+Qed.
